@@ -331,7 +331,7 @@ Theorem parse_stream_fixed_spec fuel eof ts : (List.length ts < fuel)%nat ->
 Proof.
   intros Hlen. unfold parse_stream, spec_stream.
   destruct ts as [|[[]| | | |] ts1]; try reflexivity.
-  destruct (parse_jv fuel ts1) as [[[] ts2]|] eqn:E; try reflexivity.
+  destruct (parse_jv (jv_fuel fuel) ts1) as [[[] ts2]|] eqn:E; try reflexivity.
   destruct (is_context_id l); [|reflexivity].
   destruct (namespaces_of fixed l) as [ns| | |] eqn:En; try reflexivity.
   - rewrite stream_loop_spec; [reflexivity|].
@@ -361,7 +361,7 @@ Proof.
         + injection H as <- <-. cbn; lia.
         + destruct (parse_jv f ts') as [[x0 t1]|] eqn:E1; [|discriminate].
           apply IH1 in E1. apply IH3 in H. cbn; lia. }
-    apply (proj1 (G fuel)) in E. cbn [List.length] in Hlen. lia.
+    apply (proj1 (G (jv_fuel fuel))) in E. cbn [List.length] in Hlen. lia.
   - exfalso. eapply namespaces_of_nopanic; [exact fixed_chk | eassumption].
   - exfalso. revert En. unfold namespaces_of, assert_fail. cbn [chk_types fixed].
     repeat split_match; discriminate.
@@ -814,7 +814,7 @@ Section RoundTrip.
     intros Hwf. destruct (entities_rt es Hwf) as [n Hn].
     exists (List.length es + (n + 8) + List.length ctx + 6)%nat. intros fuel Hf.
     unfold ser_stream, parse_stream.
-    rewrite context_rt by lia.
+    rewrite context_rt by (unfold jv_fuel; lia).
     cbn [is_context_id ctx_jv lookup String.eqb Ascii.eqb Bool.eqb].
     unfold namespaces_of. cbn [ctx_jv lookup String.eqb Ascii.eqb Bool.eqb].
     rewrite all_strings_jpair.
